@@ -316,6 +316,16 @@ func RunUciScript(sc *Scenario) *UciRunOut {
 						want = append(want, full.Fen())
 					}
 					want = append(want, tolerantPositions(st.Line)...)
+					if castlingUnrelatedToBoard(st.Line) {
+						// the rules do not say how a castling right without king
+						// or rook on the home square is to be read (the engine
+						// trusts it); what such a line leaves behind is only
+						// required to be a well-formed position
+						if g, err := rules.ParseFen(us.PositionFen()); err == nil && g.HasKings() {
+							out.Probes["damaged_position_with_unrelated_castling_rights"]++
+							want = append(want, us.PositionFen())
+						}
+					}
 				}
 				if len(tok) > 0 && tok[0] == "ucinewgame" {
 					want = append(want, rules.StartFen)
@@ -537,6 +547,25 @@ func tolerantPositionsTok(tok []string) []string {
 		}
 	}
 	return out
+}
+
+// castlingUnrelatedToBoard reports whether some reading of the fen of a
+// position command carries a castling right without king or rook at home.
+func castlingUnrelatedToBoard(line string) bool {
+	tok := strings.Fields(line)
+	if len(tok) < 3 || tok[0] != "position" || tok[1] != "fen" {
+		return false
+	}
+	j := 2
+	for j < len(tok) && tok[j] != "moves" {
+		j++
+	}
+	for n := 1; n <= 6 && 2+n <= j; n++ {
+		if p, err := rules.ParseFen(strings.Join(tok[2:2+n], " ")); err == nil && !p.CastlingFitsBoard() {
+			return true
+		}
+	}
+	return false
 }
 
 var reMoveInToken = regexp.MustCompile(`[a-h][1-8][a-h][1-8][nbrq]?`)
